@@ -1495,7 +1495,7 @@ class Sampling(Discrete):
         self.has_check_var = True
 
         self.v = np.array([0])
-        self._last_t = np.array([0])
+        self._last_t = np.array([0.0])  # float: sample times are not whole seconds
         self._last_v = np.array([0])
         self.indices = np.array([0])
 
